@@ -17,11 +17,12 @@ RULE = ('Hypothesis-generated world plans that place each call\'s deadline at a 
         'still open or killed around the deadline. Every byte written is logged with a global sequence number; a request is '
         'attributed to its call by the unique marker in its argument. Oracle: for every call handed TimeoutError at sequence '
         's no write containing its request has sequence > s; ThriftMux: if the request had been written and its connection is '
-        'still open at that moment, a Tdiscarded naming exactly its tag reaches the peer before the run ends, and no '
+        'still open at that moment (or, for a frame caught part-way through a blocked write, when the frame is complete), a Tdiscarded naming exactly its tag reaches the peer before the run ends, and no '
         'Tdiscarded names a tag that was not written. Non-trivial = some call\'s deadline passed while its request was at a hop '
         'other than "on the wire". distinct = distinct non-trivial plans.')
 ASSUMPTIONS = [
-    'one sendall is atomic; the gate only ever holds a ping or a call without a deadline inside the run, before any byte is taken',
+    'the gate only ever holds a ping or a call without a deadline inside the run, before any byte is taken',
+    'a ThriftMux frame that is part-way through a blocked write when its deadline passes is completed (the bytes already out cannot be recalled): only starting to write a request after the TimeoutError counts as writing it afterwards, and the discard notice is due if the connection is still open once the frame is complete',
     'a request is attributed to its call by a unique ASCII marker in its argument',
 ]
 BUDGET = {
@@ -54,7 +55,9 @@ def plans(draw):
     wait_open = False
     servers[str(port)] = {'connect': [['accept', draw(around)]], 'requests': [['reply', draw(st.sampled_from([0, 1, 5]))]] * 3, 'timeline': []}
     for i in range(draw(st.integers(1, 3))):
-      calls.append({'at': draw(st.integers(0, 3)), 'method': 'hi', 'arg': '<c%d>' % i, 'timeout_ms': None, 'via_dispatcher': draw(st.booleans())})
+      # a per-call timeout may be shorter or longer than the client's
+      calls.append({'at': draw(st.integers(0, 3)), 'method': 'hi', 'arg': '<c%d>' % i,
+                    'timeout_ms': draw(st.sampled_from([None, None, None, T // 2, 2 * T, 3 * T + 20])), 'via_dispatcher': draw(st.booleans())})
   elif hop == 'pool_queue':
     pool = {'max': 1, 'min': draw(st.integers(0, 1)), 'queue': None}
     first = draw(around)
@@ -88,6 +91,11 @@ def plans(draw):
                     'timeout_ms': draw(st.sampled_from([None, None, 20, 50])), 'via_dispatcher': draw(st.booleans())})
   for p in ports:
     servers.setdefault(str(p), {'connect': [], 'requests': [], 'timeline': []})
+  if stack == 'thriftmux' and hop in ('wire', 'mixed') and draw(st.sampled_from([False, False, True])):
+    # ThriftMux: a frame that is part-way out when its deadline passes is completed (it cannot be recalled) and then discarded
+    servers[str(ports[0])]['stall'] = {'conn': 0, 'send_index': draw(st.integers(1, 3)),
+                                       'cut': draw(st.sampled_from([1, 4, 10, 18])),
+                                       'for_ms': draw(st.sampled_from([5, T - 5, T + 10, 2 * T]))}
   if stack == 'thrift' and hop in ('wire', 'mixed') and draw(st.sampled_from([False, False, True])):
     # the peer's window fills after a few bytes of a request and the write blocks for a while (serial stack only:
     # its deadline timer interrupts the blocked write; a mux frame half-written at the deadline cannot be recalled)
@@ -117,30 +125,56 @@ def execute(plan):
     mux = plan['stack'] == 'thriftmux'
     flags = set()
     # writes per call
-    writes = {}        # call id -> [(seq, time, cid, tag)]
+    writes = {}        # call id -> [(seq of first byte, time, cid, tag, seq of last byte)]
     discards = []      # (seq, time, cid, which)
-    bufs = {}
-    for seq, t, kind, cid, payload in net.log:
-      if kind != 'tx':
-        continue
-      for rec in tr.calls:
-        marker = ('<c%d>' % rec.id).encode()
-        if marker in payload:
-          tag = None
-          if mux:
+    blocked = []       # (cid, seq of first byte, seq of last byte) of frames that went out in two pieces
+    if mux:
+      # reassemble each connection's byte stream into frames: a frame may have gone out in two pieces (blocked write)
+      streams = {}
+      cut_off = {}     # cid -> seq of the first byte of a frame that never went out completely (the connection died first)
+      for seq, t, kind, cid, payload in net.log:
+        if kind == 'tx':
+          streams.setdefault(cid, []).append((seq, t, payload))
+      for cid, parts in streams.items():
+        buf = b''
+        first = None
+        for seq, t, payload in parts:
+          if not buf:
+            first = (seq, t)
+          buf += payload
+          while len(buf) >= 4 and len(buf) >= 4 + int.from_bytes(buf[:4], 'big'):
+            n = int.from_bytes(buf[:4], 'big')
+            body, buf = buf[4:4 + n], buf[4 + n:]
             try:
-              tag = M.decode_header(payload[4:])[1]
+              d = M.decode_frame(body)
             except Exception:
-              tag = None
-          writes.setdefault(rec.id, []).append((seq, t, cid, tag))
-      if mux:
-        try:
-          d = M.decode_frame(payload[4:])
-          if d['type'] == M.T_DISCARDED:
-            discards.append((seq, t, cid, d['which']))
-        except Exception:
-          pass
-    written_tags = set((cid, tag) for ws in writes.values() for (_, _, cid, tag) in ws)
+              d = None
+            if d is not None and d['type'] == M.T_DISCARDED:
+              discards.append((seq, t, cid, d['which']))
+            for rec in tr.calls:
+              if ('<c%d>' % rec.id).encode() in body:
+                try:
+                  tag = M.decode_header(body)[1]
+                except Exception:
+                  tag = None
+                writes.setdefault(rec.id, []).append((first[0], first[1], cid, tag, seq))
+            first = (seq, t)
+        if buf:
+          cut_off[cid] = first[0]
+      # blocked writes: from the moment the peer's window filled to the next bytes taken on that connection (if ever)
+      for seq, t, kind, cid, payload in net.log:
+        if kind == 'stall':
+          nxt = [s2 for s2, _, k2, c2, _ in net.log if s2 > seq and c2 == cid and k2 == 'tx']
+          blocked.append((cid, seq, nxt[0] if nxt else 1 << 60))
+    else:
+      for seq, t, kind, cid, payload in net.log:
+        if kind != 'tx':
+          continue
+        for rec in tr.calls:
+          marker = ('<c%d>' % rec.id).encode()
+          if marker in payload:
+            writes.setdefault(rec.id, []).append((seq, t, cid, None, seq))
+    written_tags = set((cid, tag) for ws in writes.values() for (_, _, cid, tag, _) in ws)
 
     def conn_open_at(cid, seq):
       for s2, t2, kind, c2, _ in net.log:
@@ -165,10 +199,19 @@ def execute(plan):
       if not ws:
         flags.add('deadline_passed_before_the_wire')
       if mux and ws:
-        seq_w, t_w, cid, tag = ws[0]
-        if conn_open_at(cid, s):
+        seq_w, t_w, cid, tag, seq_end = ws[0]
+        if seq_end > s:
+          # the deadline passed while the frame was part-way through a blocked write: what is out cannot be recalled,
+          # the rest completes the frame; if the connection is still open then, the server is told to discard the call
+          flags.add('deadline_inside_blocked_write')
+        # the notice queues behind whatever write is blocked on that connection at the time
+        due = max([s, seq_end] + [b1 for c_, b0, b1 in blocked if c_ == cid and b0 <= s <= b1])
+        if conn_open_at(cid, due):
           named = [dsc for dsc in discards if dsc[2] == cid and dsc[3] == tag]
-          if not named:
+          if not named and cid in cut_off and not conn_open_at(cid, 1 << 60):
+            # the connection died with a frame part-way out: the notice was that frame or queued behind it
+            flags.add('connection_died_with_a_frame_part_way_out')
+          elif not named:
             raise Violation(ID, 'discard-missing', '%s: request was written with tag %r on connection %d, which was still open, but no Tdiscarded names it' % (where, tag, cid))
           flags.add('discard_sent')
     for seq, t, cid, which in discards:
